@@ -35,12 +35,20 @@ Fixpoint ext_of (p : pystr) : pystr :=
   | c :: r => if has_dot r then ext_of r else if N.eqb c DOT then r else c :: r
   end.
 
+Definition EXT_JSON : pystr := s2p "json".
+Definition EXT_YAML : pystr := s2p "yaml".
+Definition EXT_YML : pystr := s2p "yml".
+Definition EXT_TOML : pystr := s2p "toml".
+Definition EXT_PICKLE : pystr := s2p "pickle".
+Definition EXT_CSV : pystr := s2p "csv".
+Definition EXT_TSV : pystr := s2p "tsv".
+
 Definition fmt_of_ext (e : pystr) : option fmt :=
-  if pystr_eqb e (s2p "json") then Some FJson
-  else if pystr_eqb e (s2p "yaml") || pystr_eqb e (s2p "yml") then Some FYaml
-  else if pystr_eqb e (s2p "toml") then Some FToml
-  else if pystr_eqb e (s2p "pickle") then Some FPickle
-  else if pystr_eqb e (s2p "csv") || pystr_eqb e (s2p "tsv") then Some FCsv
+  if pystr_eqb e EXT_JSON then Some FJson
+  else if pystr_eqb e EXT_YAML || pystr_eqb e EXT_YML then Some FYaml
+  else if pystr_eqb e EXT_TOML then Some FToml
+  else if pystr_eqb e EXT_PICKLE then Some FPickle
+  else if pystr_eqb e EXT_CSV || pystr_eqb e EXT_TSV then Some FCsv
   else None.
 
 Definition fmt_of_path (p : path) : option fmt := fmt_of_ext (ext_of p).
